@@ -31,4 +31,17 @@ var propTable = map[string]*propSpec{
 			"nothing recovers Go run-time errors between the VM and the host, so an index out of range or a negative make() is a crash",
 		},
 	},
+	"C05": {
+		ID:    "C05",
+		Rules: []string{"R-REGTABLE", "R-METER", "R-KILL"},
+		Explanation: "Decides the structural content of 'a CPU limit is a hard and uninterceptable bound; no operation runs unmetered': " +
+			"(R-METER) every loop and every call-graph cycle reachable from a cpusafe-declared Go function or the VM core carries a charging call on every cycle, or is bounded by a constant / a length already held / an iterator over a held collection / a pre-charge on its bound, or is table-listed with its bound argument; the dispatch points named by the quota design charge before they work; private budgets are fed from the quota and what they consume is charged; the matcher's cursor only advances where budget is consumed. " +
+			"(R-KILL) no frame other than the designated owners can keep a ContextTerminationError while protecting code that can hit a limit; the error is built only in TerminateContext after the status store; the coroutine forwarding chain is intact; CallContext's kill path runs no Lua code.",
+		NotDecided: "the exact, deterministic tick counts and 'killed exactly for L <= u' (value-level); wall-clock bounds; that the constant in 'constant times memory' is small; nested bounded loops are accepted as bounded (polynomial, not linear).",
+		Assumptions: []string{
+			"a loop bounded by a held length, a constant or an iterator over a held collection does work proportional to memory the context holds (the property's own allowance)",
+			"loop-table entries (25) and recursion-table entries were confirmed by reading; the amortised argument for the pattern matcher is backed by the cursor-writer sub-rule",
+			"compile time is linear in source length, which LinearRequire(4, len(source)) pre-charges (the compile pipeline's loops are outside this rule)",
+		},
+	},
 }
